@@ -24,7 +24,7 @@ ASSUMPTIONS = ['expiry is the only disqualifying key condition reachable through
 KEYS = [('rsa1024-0', 'RSA', 'weak'), ('rsa2048-2', 'RSA', 'strong'), ('dsa1024-0', 'DSA', 'weak'), ('dsa2048-1', 'DSA', 'strong'),
         ('ecdsa-p256-0', 'EC', 'weak'), ('ed25519-0', 'EC', 'strong')]
 HASHES = [8, 2, 1]
-SUBJECTS = ['doc', 'self-uid', 'third-uid', 'whole-key', 'message', 'doc-by-subkey', 'doc-noise', 'doc-zero-expiry']
+SUBJECTS = ['doc', 'self-uid', 'third-uid', 'whole-key', 'message', 'doc-by-subkey', 'doc-noise', 'doc-zero-expiry', 'doc-old-long', 'doc-by-expired-subkey']
 
 
 def w_algebra(arg):
@@ -79,6 +79,30 @@ def build_cert(kid, expired, revoked, halg, secret=False, noise=False):
         noise = False
     blob = keypool.ref_cert(kid, uids=('Verdict Key <verdict@example.org>', 'Second <second@example.org>'), subkeys=(('cv25519-0', 0x0C), ('ed25519-1', 0x02)),
                             secret=secret, halg=halg, uid_extra=extra)
+    if noise in ('old-long', 'sub-expired'):
+        # 'old-long': the first user id's (newer) self-signature limits the key to one day, an OLDER self-signature on the second user id said 100 years;
+        # 'sub-expired': the key itself never expires, the binding signature of the signing subkey limits that subkey to one day
+        psec = keypool.ref_secret(kid)
+        ppub = psec.pub
+        pk = wire.split_packets(keypool.ref_cert(kid, uids=('Verdict Key <verdict@example.org>', 'Second <second@example.org>'),
+                                                 subkeys=(('cv25519-0', 0x0C), ('ed25519-1', 0x02)), secret=secret, halg=halg))
+        out = b''
+        nuid = 0
+        for i, p in enumerate(pk):
+            if p.tag == 2 and pk[i - 1].tag == 13 and noise == 'old-long':
+                nuid += 1
+                extra = keypool.sp(27, b'\x03') + (keypool.sp(9, wire.u32(86400)) + keypool.sp(25, b'\x01') if nuid == 1 else keypool.sp(9, wire.u32(86400 * 36500)))
+                t = ppub.created + (100 if nuid == 1 else 10)
+                out += wire.build_packet(2, rsig.sign(psec, 0x13, halg, ('cert', ppub, 'uid', pk[i - 1].body), keypool.std_hashed(t, ppub.fingerprint, extra), keypool.sp(16, ppub.keyid)))
+            elif p.tag == 2 and pk[i - 1].tag in (7, 14) and noise == 'sub-expired' and rkeys.parse_public_body(pk[i - 1].body)[0].alg == 22:
+                ssec = keypool.ref_secret('ed25519-1')
+                eb = rsig.sign(ssec, 0x19, halg, ('subkey', ppub, ssec.pub), keypool.std_hashed(ppub.created + 100, ssec.pub.fingerprint), keypool.sp(16, ssec.pub.keyid))
+                out += wire.build_packet(2, rsig.sign(psec, 0x18, halg, ('subkey', ppub, ssec.pub),
+                                                      keypool.std_hashed(ppub.created + 100, ppub.fingerprint, keypool.sp(27, b'\x02') + keypool.sp(9, wire.u32(86400))),
+                                                      keypool.sp(16, ppub.keyid) + keypool.sp(32, eb)))
+            else:
+                out += p.raw
+        return out
     if noise:
         psec = keypool.ref_secret(kid)
         pk = wire.split_packets(blob)
@@ -116,20 +140,24 @@ def scenario(rec, kid, fam, strength, expired, revoked, halg, subject, wrong):
     case = {'kind': 'scn', 'kid': kid, 'expired': expired, 'revoked': revoked, 'halg': halg, 'subject': subject, 'wrong': wrong}
     psec = keypool.ref_secret(kid)
     ppub = psec.pub
-    cert = build_cert(kid, expired, revoked, halg, noise=(subject == 'doc-noise') or ('zero' if subject == 'doc-zero-expiry' else False))
+    cert = build_cert(kid, expired, revoked, halg, noise=(subject == 'doc-noise') or {'doc-zero-expiry': 'zero', 'doc-old-long': 'old-long', 'doc-by-expired-subkey': 'sub-expired'}.get(subject, False))
     if subject == 'doc-zero-expiry':
         expired = False
+    if subject in ('doc-old-long', 'doc-by-expired-subkey'):
+        if revoked or not expired:
+            return          # one scenario per key and hash is enough: the certificate is built expired by construction
+        expired = True
     n_sigs = 1
     try:
         ver = keypool.pgpy_key(cert)
-        if subject == 'doc-by-subkey':
+        if subject in ('doc-by-subkey', 'doc-by-expired-subkey'):
             # the document is signed by the signing subkey of the certificate; the verdict is asked of the (possibly expired) primary
             ssec = keypool.ref_secret('ed25519-1')
             body = rsig.sign(ssec, 0x00, halg, ('doc', b'verdict coherence'), keypool.std_hashed(1600000000, ssec.pub.fingerprint), keypool.sp(16, ssec.pub.keyid))
             if wrong == 0:
                 body = corrupt(body)
             res = ver.verify(b'verdict coherence', pgpy.PGPSignature.from_blob(wire.build_packet(2, body)))
-        elif subject in ('doc', 'doc-noise', 'doc-zero-expiry'):
+        elif subject in ('doc', 'doc-noise', 'doc-zero-expiry', 'doc-old-long'):
             body = rsig.sign(psec, 0x00, halg, ('doc', b'verdict coherence'), keypool.std_hashed(1600000000, ppub.fingerprint), keypool.sp(16, ppub.keyid))
             if wrong == 0:
                 body = corrupt(body)
